@@ -4,7 +4,7 @@ cd "$(dirname "$0")/.."
 for id in "$@"; do
   git -C /repo apply "$PWD/seeded/$id/patch.diff" || { echo "$id: patch does not apply"; continue; }
   python3 checker/translate.py | grep -v '"translated"' | grep -v '^[{}]' | sed "s/^/$id status: /"
-  for m in Names Enums Tables Layout Consts Direct Encoders EncoderData; do
+  for m in Names Enums Tables Layout Consts Direct Encoders EncoderData Dispatch; do
     if (cd lean && lake build Mctp.Tie.$m >/tmp/tie_probe.log 2>&1); then echo "$id Tie.$m ok"; else echo "$id Tie.$m BROKEN: $(grep -c '^error' /tmp/tie_probe.log) errors, first: $(grep -m1 '^error' /tmp/tie_probe.log | cut -c1-160)"; fi
   done
   git -C /repo checkout -- .
